@@ -2,7 +2,7 @@
    domain (no halo cells cropped: px = py = 0; a halo is observed through explicit padding).
    Only statements, `exact`, Print Assumptions. *)
 From Coq Require Import ZArith List Bool.
-From BL Require Import Base.Ops Base.Laws Model.Solver Proofs.SpecProofs Proofs.C04Proofs Proofs.C06Proofs.
+From BL Require Import Base.Ops Base.Laws Model.Solver Proofs.SpecProofs Proofs.C04Proofs Proofs.C02Proofs Proofs.C06Proofs Proofs.C06Reflect.
 Import ListNotations.
 
 (* rolling the surface-flux field by (rx, ry) whole cells (any integers: wrap-around included)
@@ -72,6 +72,42 @@ Proof.
   apply Nat2Z.id.
 Qed.
 
+(* point reflection (periodic domain, on-grid tower (im, jm), double storage): the footprint for the
+   tower, read at cell (j, i), is the flux response to a UNIT SOURCE PLACED AT THE TOWER, read at the
+   cell reflected about the tower, ((2 jm - j) mod ny, (2 im - i) mod nx); the concentration Green's
+   function likewise, above background.  [reciprocity with a unit source at (j, i) + source roll] *)
+Theorem C06_point_reflection : forall (O : Ops), Laws O ->
+  forall (a : args O) (g : geom O) (im jm : nat) (p : C O),
+  wf O a -> a_single O a = false ->
+  geometry O (fp_req O a (cmul O (cofZ O (Z.of_nat im)) (g_dx O g)) (cmul O (cofZ O (Z.of_nat jm)) (g_dy O g))) = inl g ->
+  g_px O g = 0%nat -> g_py O g = 0%nat -> g_dx O g <> c0 O -> g_dy O g <> c0 O ->
+  g_nx O g <> 0%nat -> g_ny O g <> 0%nat -> (0 < g_nlx O g)%nat -> (0 < g_nly O g)%nat ->
+  (im < g_nx O g)%nat -> (jm < g_ny O g)%nat ->
+  forall k j i, (k < length (a_levels O a))%nat -> (j < g_ny O g)%nat -> (i < g_nx O g)%nat ->
+  let afp := fp_req O a (cmul O (cofZ O (Z.of_nat im)) (g_dx O g)) (cmul O (cofZ O (Z.of_nat jm)) (g_dy O g)) in
+  let afw := fw_req O (with_src O a (unit_src O (g_ny O g) (g_nx O g) jm im) p) p in
+  let jr := cyc (g_ny O g) jm (- (Z.of_nat j - Z.of_nat jm)) in
+  let ir := cyc (g_nx O g) im (- (Z.of_nat i - Z.of_nat im)) in
+  (get3 O (field O afp g snd (table O afp g)) k j i = get3 O (field O afw g snd (table O afw g)) k jr ir)
+  /\
+  (get3 O (field O afp g fst (table O afp g)) k j i
+   = csub O (get3 O (field O afw g fst (table O afw g)) k jr ir) (cre O p)).
+Proof. exact point_reflection. Qed.
+
+(* the reflected index is (2 m - x) mod n, and the unit source is one at the tower, zero elsewhere *)
+Example C06_reflected_index : forall n m x : nat, (m < n)%nat -> (x < n)%nat ->
+  Z.of_nat (cyc n m (- (Z.of_nat x - Z.of_nat m))) = ((2 * Z.of_nat m - Z.of_nat x) mod Z.of_nat n)%Z.
+Proof.
+  intros n m x Hm Hx. unfold cyc. rewrite Z2Nat.id.
+  - f_equal. ring.
+  - apply Z.mod_pos_bound. apply (Nat2Z.inj_lt 0). apply Nat.le_lt_trans with m; [apply Nat.le_0_l|exact Hm].
+Qed.
+Theorem C06_unit_source_cells : forall (O : Ops), Laws O -> forall ny nx j0 i0 j i, (j < ny)%nat -> (i < nx)%nat ->
+  cellq O (unit_src O ny nx j0 i0) j i = if (Nat.eqb j j0 && Nat.eqb i i0)%bool then c1 O else c0 O.
+Proof. exact unit_src_cell. Qed.
+
 Goal True. idtac "THEOREM C06_source_shift". Abort. Print Assumptions C06_source_shift.
 Goal True. idtac "THEOREM C06_tower_shift". Abort. Print Assumptions C06_tower_shift.
 Goal True. idtac "THEOREM C06_recentre". Abort. Print Assumptions C06_recentre.
+Goal True. idtac "THEOREM C06_point_reflection". Abort. Print Assumptions C06_point_reflection.
+Goal True. idtac "THEOREM C06_unit_source_cells". Abort. Print Assumptions C06_unit_source_cells.
